@@ -27,14 +27,14 @@ def close_loop(loop):
     asyncio.set_event_loop(None)
 
 
-def attach(session_factory, kind='server', transport='rs', framer=None, hwm=None):
+def attach(session_factory, kind='server', transport='rs', framer=None, hwm=None, sockbuf=None):
     """instantiate the protocol class, connect it to a FakeTransport; returns (protocol, fake, session)"""
     from aiorpcx import rawsocket, unixsocket
     from aiorpcx.session import SessionKind
     k = SessionKind.SERVER if kind == 'server' else SessionKind.CLIENT
     cls = rawsocket.RSTransport if transport == 'rs' else unixsocket.USTransport
     proto = cls(session_factory, framer, k)
-    ft = FakeTransport(proto, hwm=hwm)
+    ft = FakeTransport(proto, hwm=hwm, sockbuf=sockbuf)
     proto.connection_made(ft)
     return proto, ft, proto.session
 
